@@ -10,5 +10,5 @@ def main(tier='quick', seed=0):
     assumptions = list(cxx.CXX_ASSUMPTIONS) + [
         'deductive part: only final items reach the goal cell and only the goal site creates them; ordering/size of the output (cell::sort comparator, loop guard goal.size() < nbest) and "k largest, pairwise distinct" are decided by the bounded run against the exhaustive oracle only',
     ]
-    extra = dict(functions_under_contract=['depccg/parsing.h::parse_sentence (goal cell receives only final items; only the goal site creates final items)'], cxx=info)
+    extra = dict(functions_under_contract=['depccg/parsing.h::parse_sentence (goal cell receives only final items; only the goal site creates final items)'] + cxx.HELPER_FUNCTIONS['C10'], cxx=info)
     return c12.finish_with(PROP, tier, seed, t0, records, errors, extra, assumptions, ['search_real.py', 'pyx_real.py'], level='exploration')
